@@ -93,6 +93,15 @@ PROPS["C15"] = {
     "assumptions": ["Coh and size <= usize::MAX (C01)"],
 }
 
+PROPS["C19"] = {
+    "module": "Matreex.Props.C19", "harness": "C19",
+    "technique": "Lean 4 theorems by induction over the row lists (uniform => rows in order; any deviating row => LengthInconsistent / panic; with_initializer stores f(r,c) at (r,c)) using the regenerated size decision (T2) + macro-arm table (T1) + exhaustive correspondence over ragged inputs with destructor tokens",
+    "trusted": ["Vec::extend / extend_from_slice / collect / vec! modelled as list append (vec![v; n]: n-1 clones then the original), FromIterator rows as lists",
+                "translate/t1.py macros: regex extraction of each macro arm's pattern and expansion",
+                "closures / Clone are effect-free functions in the theorems (the harness records real calls)"],
+    "assumptions": [],
+}
+
 LEVEL_TEXT = ("Machine-checked Lean 4 theorems, for all inputs the property quantifies over, about a model whose integer core is "
               "regenerated from /repo/src on every run and whose remaining structure is tied to the implementation by a differential "
               "correspondence run (same operation lines on crate and model) plus the property's own oracle on the implementation.")
